@@ -10,6 +10,7 @@ from __future__ import annotations
 
 from . import framework as fw  # noqa: E402
 
+import copy
 import heapq
 import logging
 import random
@@ -117,6 +118,7 @@ def dijkstra(edges: Dict[int, List], src: int) -> Dict[int, Fraction]:
 def gen_case(rng: random.Random, k: int) -> Dict[str, Any]:
     n = Interner(9)
     g = gen_graph(rng)
+    g_raw = copy.deepcopy(g)            # the constructor rewrites node and edge attributes in place
     net = OSMRoadNetwork(g, default_speed_kmph=40.0)
     links = net.link_helper.links
     edges: Dict[int, List] = {}
@@ -226,6 +228,27 @@ def gen_case(rng: random.Random, k: int) -> Dict[str, Any]:
         p = net.position_from_geoid(c)
         ok = p is not None and p.link_id in links and p.geoid in set(h3.h3_line(links[p.link_id].start, links[p.link_id].end))
         snaps.append({"cell": n.cell(c), "ok": bool(ok), "link": None if p is None else n.get("link", p.link_id)})
+    # ---- snapping on a street graph with parallel roadways (two edges between the same junctions: the
+    # link table has one entry per link id, the spatial index one per graph edge)
+    if rng.random() < 0.5 and raised is None:
+        try:
+            g2 = g_raw
+            pairs = sorted({(u, v) for (u, v) in g2.edges()})
+            for (u, v) in rng.sample(pairs, min(len(pairs), rng.randint(1, 3))):
+                d0 = g2.get_edge_data(u, v)[0]
+                g2.add_edge(u, v, length=d0["length"] * rng.uniform(1.0, 1.3), speed_kmph=d0.get("speed_kmph", 40.0))
+            net2 = OSMRoadNetwork(g2, default_speed_kmph=40.0)
+            links2 = net2.link_helper.links
+            ids2 = sorted(links2.keys())
+            for i in range(10):
+                l = links2[rng.choice(ids2)]
+                line = list(h3.h3_line(l.start, l.end))
+                c = rng.choice(line) if i % 2 == 0 else h3.geo_to_h3(*[x + rng.uniform(-0.001, 0.001) for x in h3.h3_to_geo(rng.choice(line))], 15)
+                p = net2.position_from_geoid(c)
+                ok = p is not None and p.link_id in links2 and p.geoid in set(h3.h3_line(links2[p.link_id].start, links2[p.link_id].end))
+                snaps.append({"cell": n.cell(c), "ok": bool(ok), "link": None if p is None else n.get("link", p.link_id)})
+        except Exception as e:
+            raised = f"parallel-edge graph: {type(e).__name__}: {e}"[:300]
     # ---- the straight-line network
     hav = HaversineRoadNetwork(sim_h3_resolution=15)
     hqueries = []
